@@ -442,6 +442,9 @@ func (a *sanAnalysis) leakedFragment() string {
 		}
 		for i := 0; i+3 <= len(lit); i++ {
 			w := lit[i : i+3]
+			if strings.Contains("[REDACTED]", string(w)) {
+				continue // indistinguishable from the replacement text
+			}
 			if countRunes(out, w) >= countRunes(a.rs, w) {
 				return string(w)
 			}
@@ -555,11 +558,11 @@ func knownSanitizeText(args []string) string {
 		case len(kwGap) == 0 || !allRegexSpace(kwGap) || !allRegexSpace(litGap):
 			set("C15-leak-comment-between-tokens")
 		case !c.create && hasRune(a.rs[c.kw2.end:c.eq.start], '='):
-			set("C15-leak-equals-before-eq")
+			set("C15-leak-earlier-text-interferes")
 		}
 	}
 	if class == "" {
-		class = "C15-leak-clause-interference"
+		class = "C15-leak-earlier-text-interferes"
 	}
 	return class
 }
